@@ -169,7 +169,7 @@ def arrangement_sweep(chk, groups, rnd, limit, stats, deadline):
     hit = set()
     ncov = {}
     for n, k in enumerate(keys):
-        if time.time() > deadline:
+        if time.time() > deadline and n >= 300:      # (a minimum is replayed however loaded the machine is)
             stats["arrangement_sweep_truncated_at"] = n
             break
         recs = groups[k]
@@ -238,7 +238,7 @@ def ufunc_sweep(chk, groups, rnd, per_combo, stats, deadline, backs, dask_share=
                 dead[(uf, dt)] = False
             except Exception:
                 dead[(uf, dt)] = True
-        if time.time() > deadline:
+        if time.time() > deadline and n >= 500:
             stats["ufunc_sweep_truncated_at"] = "%d of %d" % (n, len(combos))
             break
         arrs = STD[(uf.nin, uf.nout)]
@@ -306,6 +306,54 @@ def operator_sweep(chk, groups, rnd, stats, reps):
                     if record(chk, oc, case, stats, "op"):
                         n += 1
     stats["operator_forms_replayed"] = n
+
+
+def operand_kind_sweep(chk, groups, rnd, stats, picks):
+    """Operand KIND as a generated dimension: every operand type without __array_ufunc__ (Python numbers,
+    every NumPy scalar type incl. np.bool_ / datetime64 / timedelta64 / str_, 0-d arrays, list, tuple, range,
+    array.array, memoryview) and Quantity, in both operand orders, as a ufunc argument, as an operator
+    operand and as the right side of an in-place operator, on every class.  The outcome - values or
+    exception - must be the one the same call has on the bare arrays (TLC record ok / InnerError)."""
+    import ufunc_replay as ur
+    menu = {"Signal": ["float64", "int16", "bool", "complex64", "datetime64[s]"], "RadioSignal": ["float32", "int64"]}
+    forms = [("add", "func", 0), ("add", "op", 0), ("multiply", "op", 0), ("subtract", "func", 0), ("less", "op", 0),
+             ("equal", "func", 0), ("logical_and", "func", 0), ("maximum", "func", 0), ("power", "op", 0),
+             ("bitwise_or", "op", 0), ("add", "iop", 1), ("multiply", "kw", 1), ("divmod", "func", 2)]
+    n = 0
+    seen = {}
+    for cls in ur.SIG:
+        for dt in menu.get(cls) or ur.REQ[cls][:1]:
+            for kname in [k for k, _ in ur.SCAL_KINDS] + ["qty"]:
+                for order in (0, 1):
+                    for uname, form, outk in (forms if picks >= len(forms) else rnd.sample(forms, picks)):
+                        other = "qty" if kname == "qty" else "scal"
+                        heap0 = [cls, other] if order == 0 else [other, cls]
+                        if outk == 1 and order == 1:
+                            continue                      # the in-place / out target is the signal
+                        ins, outs, u = [1, 2], [0], "add"
+                        if outk == 1:
+                            outs = [1]
+                        if outk == 2:
+                            outs, u = [0, 0], "divmod"
+                        recs = groups.get((tuple(heap0), u, "call", tuple(ins), tuple(outs)))
+                        if recs is None:
+                            continue
+                        seed = rnd.randrange(1 << 31)
+                        back = "dask" if (rnd.random() < 0.15 and dt != "datetime64[s]") else "np"
+                        dts = {str(heap0.index(cls)): dt}
+                        if other == "scal":
+                            dts[str(heap0.index("scal"))] = "kind:" + kname
+                        oc, d = attempt(heap0, recs, seed, back, uf_name=uname, dtypes=dts, form=form, tries=1)
+                        case = {"kind": "group", "heap0": heap0, "recs": recs, "seed": seed, "back": back,
+                                "uf": uname, "dtypes": dts, "form": form}
+                        if record(chk, oc, case, stats, "kind"):
+                            n += 1
+                            key = kname + (":err" if oc.errpath else ":ok")
+                            seen[key] = seen.get(key, 0) + 1
+    stats["operand_kind_replays"] = n
+    stats["operand_kinds_with_a_computed_result"] = sorted(k[:-3] for k in seen if k.endswith(":ok"))
+    stats["operand_kinds_only_refused_by_numpy_itself"] = sorted(
+        k[:-4] for k in seen if k.endswith(":err") and (k[:-4] + ":ok") not in seen)
 
 
 def attempt_chain(case, seed, back):
@@ -452,7 +500,7 @@ def chain_sweep(chk, chains, rnd, limit, stats, deadline):
         chains = rnd.sample(chains, limit)
     done = steps = 0
     for n, c in enumerate(chains):
-        if time.time() > deadline:
+        if time.time() > deadline and n >= 100:
             stats["chain_sweep_truncated_at"] = n
             break
         seed = rnd.randrange(1 << 31)
@@ -508,13 +556,14 @@ def run(chk):
     stats["generated_d1_records"] = len(d1)
     stats["generated_chains"] = len(chains)
     # sizes are counts (deterministic for a seed); the deadlines only guard against an overloaded machine
-    end = t0 + (800 if thorough else 118)
+    end = t0 + (800 if thorough else 105)
     asarray_sweep(chk, asarr, rnd, stats, thorough)
     qty_eq_sweep(chk, qeq, rnd, stats, 6 if thorough else 2)
     operator_sweep(chk, groups, rnd, stats, 1 if thorough else 0.1)
-    ufunc_sweep(chk, groups, rnd, 99 if thorough else 2, stats, t0 + (420 if thorough else 85),
+    operand_kind_sweep(chk, groups, rnd, stats, 99 if thorough else 2)
+    ufunc_sweep(chk, groups, rnd, 99 if thorough else 2, stats, t0 + (420 if thorough else 75),
                 ("np", "dask"), 1.0 if thorough else 0.12)
-    arrangement_sweep(chk, groups, rnd, 10 ** 9 if thorough else 1800, stats, t0 + (680 if thorough else 105))
+    arrangement_sweep(chk, groups, rnd, 10 ** 9 if thorough else 1800, stats, t0 + (680 if thorough else 92))
     chain_sweep(chk, chains, rnd, 5000 if thorough else 350, stats, end)
     trace_part(chk, rnd, stats, thorough, repo_job)
     stats["ufuncs_used"] = len(stats.get("ufuncs_used", ()))
